@@ -48,7 +48,9 @@ META = {
              "List(Int) nested, Dict(Str,Int) nested, Set(Int) nested} x bounds {(0,inf),(1,3),(2,2),"
              "(0,0),(0,2)}, Dict(K,V) incl. Dict(Str,List(Int)), Set(T); every mutator of the three "
              "container classes, in-place operators through the attribute, whole-value assignment, "
-             "mutation of nested containers and of stale former values. A case is non-trivial when the "
+             "mutation of nested containers and of stale former values; a separate stratum draws the set "
+             "intersection operators with operands equal to, but not identical with, members (it hits "
+             "an open finding and would otherwise truncate the main histories). A case is non-trivial when the "
              "operation changed the value, raised, or delivered a notification; distinct_nontrivial "
              "counts distinct (container kind, inner trait, bounds, target top/nested/stale, operation, "
              "argument class, outcome class, changed) signatures of such cases."),
@@ -61,13 +63,13 @@ META = {
                   "elements_walked": 250000, "nested_ops": 5000, "stale_ops": 3000, "assign_ops": 8000,
                   "list_ops": 45000, "dict_ops": 15000, "set_ops": 12000,
                   "convertible_items_stored": 4000, "grid_cases": 7000, "isect_twin_ops": 30},
-        "thorough": {"evaluations": 2000000, "rejections_checked": 600000, "direction_checked": 600000,
-                     "length_direction_checked": 200000, "ops_succeeded": 1000000,
+        "thorough": {"evaluations": 2000000, "rejections_checked": 600000, "direction_checked": 500000,
+                     "length_direction_checked": 150000, "ops_succeeded": 1000000,
                      "notifications_seen": 3000000, "notif_static": 600000, "notif_otc": 600000,
                      "notif_observe": 600000, "notif_observe_nested": 200000, "notif_raw": 600000,
-                     "notif_anytrait": 600000, "elements_walked": 6000000, "nested_ops": 120000,
-                     "stale_ops": 70000, "assign_ops": 200000, "list_ops": 1000000, "dict_ops": 400000,
-                     "set_ops": 300000, "convertible_items_stored": 100000, "grid_cases": 7000,
+                     "notif_anytrait": 600000, "elements_walked": 5000000, "nested_ops": 120000,
+                     "stale_ops": 70000, "assign_ops": 150000, "list_ops": 1000000, "dict_ops": 400000,
+                     "set_ops": 250000, "convertible_items_stored": 80000, "grid_cases": 7000,
                      "isect_twin_ops": 600},
     },
     "exhaustive_parts": ("list grid: every list mutator x every length in minlen..min(maxlen,4) x "
@@ -466,6 +468,26 @@ def plain(v):
     return v
 
 
+class Tagged:
+    def __init__(self, text):
+        self.text = text
+
+    def __repr__(self):
+        return self.text
+
+
+def show(x):
+    """Operation literal for witnesses: trait containers passed as arguments
+    (borrowed from this or another object) are tagged as such."""
+    if isinstance(x, (TraitListObject, TraitDictObject, TraitSetObject)):
+        return Tagged("<%s %r>" % (type(x).__name__, plain(x)))
+    if isinstance(x, tuple):
+        return tuple(show(i) for i in x)
+    if isinstance(x, list):
+        return [show(i) for i in x]
+    return x
+
+
 # --------------------------------------------------------------------------
 # value pools: (valid, convertible, invalid) per atomic spec
 # --------------------------------------------------------------------------
@@ -515,8 +537,7 @@ def hashable(v):
 
 def gen(spec, rng, want, need_hash=False, borrow=None):
     """A raw argument for `spec` intended to be valid / convertible / invalid
-    (the authoritative class is recomputed with `accepts`)."""
-    t = spec[0]
+    (the authoritative class is recomputed with `classify`)."""
     if want == CONV and not has_conv(spec):
         want = VALID
     for _ in range(20):
@@ -886,7 +907,7 @@ def gen_items(rng, inner, k, borrow):
 
 
 def gen_list_op(rng, spec, cur, top, borrow=None, name=None):
-    inner, lo, hi = spec[1], spec[2], spec[3]
+    inner = spec[1]
     n = len(cur)
     name = name or rng.choice(LIST_OPS)
     if name.startswith("attr_") and not top:
@@ -1213,12 +1234,12 @@ class History:
                 ns.append(self.raw)
 
     def fail(self, kind, opname, complaint, msg, extra):
-        w = {"config": spec_name(self.spec), "history": [short(o, 300) for o in self.ops],
+        w = {"config": spec_name(self.spec), "history": [short(show(o), 300) for o in self.ops],
              "value": short(plain(getattr(self.obj, NAME)), 400)}
         w.update(extra)
         self.ctx.violation("%s/%s/%s" % (kind, opname, complaint),
                            "%s: %s on %s; op=%s; %s" % (complaint, opname, spec_name(self.spec),
-                                                        short(self.ops[-1] if self.ops else None, 300), msg), w)
+                                                        short(show(self.ops[-1]) if self.ops else None, 300), msg), w)
         return True
 
     def walk(self, kind, opname):
@@ -1277,7 +1298,11 @@ class History:
         classes = [classify(sp, v) for sp, v in cands]
         # an invalid argument item "would be stored" when the built-in container,
         # given the same operation, ends up holding that very object
-        held = held_ids(kind, model, tspec) if model_exc is None else ()
+        # (not for the intersection operators: that CPython's set keeps the
+        # argument's object rather than the equal member is an accident of the
+        # built-in; an intersection need not store anything, so nothing has to
+        # be refused -- the invariant walk judges what is actually held)
+        held = held_ids(kind, model, tspec) if model_exc is None and op[0] not in ISECT_OPS else ()
         items_bad = any(c == INVALID and (cv[0], id(cv[1])) in held for c, cv in zip(classes, cands))
         len_bad = (model_exc is None and kind == "list"
                    and not tspec[2] <= len(model) <= tspec[3])
@@ -1578,7 +1603,7 @@ def run(ctx):
                 if h.step():
                     break
             if hno // ctx.nshards < 3:
-                ctx.sample({"config": spec_name(spec), "history": [short(o, 200) for o in h.ops[:6]],
+                ctx.sample({"config": spec_name(spec), "history": [short(show(o), 200) for o in h.ops[:6]],
                             "final": short(plain(getattr(h.obj, NAME)), 200)})
         finally:
             ctx.end()
